@@ -19,7 +19,7 @@ from ..flow import flow_of
 from ..model import unparse, stmt_key, Func
 from .common import (
     Ctx, find_api_functions, ctx_global_name, user_calls, store_calls, done_nodes, witness_path,
-    in_handler_or_finally, ancestors, dominated, stray_store_calls,
+    in_handler_or_finally, ancestors, dominated, stray_store_calls, unowned_holders, effect_sites,
 )
 
 PROP = "C10"
@@ -93,8 +93,16 @@ def run(ctx: Ctx) -> None:
         fl = flow_of(prog, f)
         ucs = user_calls(f)
         uc_done = [d for u in ucs for d in done_nodes(cfg, u)]
-        for call in store_calls(ctx, f, ["store_blob"]):
+        for call in effect_sites(ctx, f, ["store_blob"]):
             n_store += 1
+            if call not in store_calls(ctx, f, ["store_blob"]):
+                w = dominated(ctx, f, call, uc_done)
+                d_ = f"helper call `{unparse(call, 40)}` that stores a blob runs only after the user call completed"
+                if w is None and not in_handler_or_finally(f.module, call):
+                    rep.ok("C10.R2", f.qname, d_, f.loc(call))
+                else:
+                    rep.bad("C10.R2", f.qname, d_, f.loc(call), w or ["inside a handler"], stmt_key(call), what="a blob can be stored without a normally completed user call")
+                continue
             where = f.loc(call)
             desc = "stored value is exactly the user call's result, after the call completed normally"
             if len(call.args) < 2:
@@ -129,7 +137,7 @@ def run(ctx: Ctx) -> None:
                 rep.ok("C10.R2", f.qname, desc, where)
             else:
                 rep.bad("C10.R2", f.qname, desc, where, wit, stmt_key(call), what="a blob can be stored without a normally completed user call")
-        for call in store_calls(ctx, f, ["sync_paths"]):
+        for call in effect_sites(ctx, f, ["sync_paths"]):
             where = f.loc(call)
             desc = "path commit happens only after the root value was obtained (fetched or computed), outside handlers"
             fetches = store_calls(ctx, f, ["fetch_blob"])
@@ -149,7 +157,7 @@ def run(ctx: Ctx) -> None:
         (["sync_paths"], [top], "paths are committed outside the single end-of-evaluation commit: a later failure leaves them committed"),
         (["store_blob"], [top, nested], "a blob is stored outside the API functions that guard it by the user call's completion"),
     ):
-        strays = stray_store_calls(ctx, names, allowed)
+        strays = unowned_holders(ctx, names, allowed)
         for sf, call in strays:
             rep.bad("C10.R3" if names == ["sync_paths"] else "C10.R2", sf.qname,
                     f"{names[0]} is called only from {', '.join(a.name for a in allowed)}", sf.loc(call),
